@@ -66,9 +66,10 @@ class Pipeline:
         out, last = [], None
         for e in events:
             if e["h"] != last:
-                r = {"h": e["h"], "i": 0, "act": "Reset"}
-                r.update(self.reset_fields)
-                out.append(r)
+                if e["i"] != 0:      # drivers that record their own initial observation emit i = 0 themselves
+                    r = {"h": e["h"], "i": 0, "act": "Reset"}
+                    r.update(self.reset_fields)
+                    out.append(r)
                 last = e["h"]
             out.append(e)
         return out
@@ -170,6 +171,7 @@ class Pipeline:
             "monitor_failures": len(v.monfail),
             "known_finding_hits": {k: len(fl) for k, (f, fl) in known.items()},
             "conformance_drift": drift,
+            "conformance_drift_details": getattr(v, "details", []),
             "exhaustive": False,
         }
         if selftest is not None:
